@@ -177,8 +177,15 @@ func VerifC19Update() {
 		fs.Remove(uint32(c))
 	case 9:
 		o, mo := vGenBSIAt(1, vsym.Param("w2"), 2)
-		b.ParOr(vsym.Param("par"), o)
+		args := []*BSI{o}
 		m.set(mo.ps[0].col, mo.ps[0].val)
+		if w3 := vsym.Param("w3"); w3 > 0 {
+			// a second argument of another width (all on disjoint columns)
+			o2, mo2 := vGenBSIAt(1, w3, 3)
+			args = append(args, o2)
+			m.set(mo2.ps[0].col, mo2.ps[0].val)
+		}
+		b.ParOr(vsym.Param("par"), args...)
 	case 10:
 		ow := w
 		if w2 := vsym.Param("w2"); w2 > 0 {
